@@ -7,6 +7,8 @@ the patch is re-generated against the current HEAD), build with and without -tag
 existing test suite, run the demonstration with the patch (must fail) and without it (must pass).
 """
 import json, os, re, shutil, subprocess, sys, tempfile
+ROOT = os.environ.get("MUTROOT", "/tmp/mut2")
+OFF = int(os.environ.get("SEEDOFF", "2"))
 ENV = dict(os.environ, GOFLAGS="-mod=mod", GOPROXY="off", GOSUMDB="off", GOTOOLCHAIN="local")
 
 def sh(cmd, cwd, timeout=900):
@@ -18,13 +20,14 @@ def sh(cmd, cwd, timeout=900):
 
 def main():
     cid, n = sys.argv[1], sys.argv[2]
-    src = f"/tmp/mut/{cid}/out/{n}"
+    dn = str(int(n) + OFF)
+    src = f"{ROOT}/{cid}/out/{n}"
     meta = json.load(open(f"{src}/meta.json"))
     wt = tempfile.mkdtemp(prefix="seedwt.")
     os.rmdir(wt)
     rc, out = sh(f"git -C /repo worktree add -q --detach {wt} HEAD", "/")
     assert rc == 0, out
-    res = {"property": cid, "seed": f"{cid}-{n}"}
+    res = {"property": cid, "seed": f"{cid}-{dn}"}
     try:
         rc, out = sh(f"git apply {src}/patch.diff || patch -p1 -F3 -s < {src}/patch.diff", wt)
         res["patch_applies"] = rc == 0
@@ -43,10 +46,10 @@ def main():
         res["existing_test_failures"] = fails
         # demonstration
         cmd = meta.get("demo_cmd", "")
-        cmd = re.sub(r"cd /tmp/mut/C\d+\s*&&\s*", "", cmd)
+        cmd = re.sub(r"cd /tmp/mut2?/C\d+\s*&&\s*", "", cmd)
         cmd = re.sub(r"git apply out/\d+/patch\.diff\s*&&\s*", "", cmd)
         cmd = re.sub(r"export GOFLAGS=\S+ GOPROXY=\S+ GOSUMDB=\S+ GOTOOLCHAIN=\S+\s*&&\s*", "", cmd)
-        cmd = cmd.replace(" out/", f" /tmp/mut/{cid}/out/").rstrip("; ")
+        cmd = cmd.replace(" out/", f" {ROOT}/{cid}/out/").replace(f"/tmp/mut2/{cid}/out/", f"{ROOT}/{cid}/out/").rstrip("; ")
         res["demo_cmd"] = cmd
         rc1, out1 = sh(cmd + " 2>&1", wt, timeout=600)
         res["demo_with_patch_exit"] = rc1
@@ -61,13 +64,13 @@ def main():
         res["demo_passes_without_patch"] = passed(rc2, out2)
         res["confirmed"] = bool(res["builds"] and res["existing_tests_pass"] and res["demo_fails_with_patch"] and res["demo_passes_without_patch"])
         if res["confirmed"]:
-            dst = f"/verif/seeded/{cid}-{n}"
+            dst = f"/verif/seeded/{cid}-{dn}"
             shutil.rmtree(dst, ignore_errors=True)
             os.makedirs(dst)
             open(f"{dst}/patch.diff", "w").write(newpatch)
             shutil.copytree(f"{src}/demo", f"{dst}/demo")
             m = {"property": cid, "summary": meta.get("summary"), "breaks": meta.get("breaks"), "needs_to_manifest": meta.get("needs_to_manifest"),
-                 "files_changed": meta.get("files_changed"), "demo_cmd_in_a_worktree_of_repo": cmd.replace(f"/tmp/mut/{cid}/out/{n}/", f"/verif/seeded/{cid}-{n}/"),
+                 "files_changed": meta.get("files_changed"), "demo_cmd_in_a_worktree_of_repo": cmd.replace(f"{ROOT}/{cid}/out/{n}/", f"/verif/seeded/{cid}-{dn}/"),
                  "confirmed_by": {"applies_to_repo_head": True, "go_build_and_build_tags_verif": True, "existing_suite": "pass (flaky Test_ReuseConnTransport ignored)",
                                   "demo_with_patch": "fails", "demo_without_patch": "passes"}}
             json.dump(m, open(f"{dst}/meta.json", "w"), indent=1)
